@@ -118,3 +118,336 @@ Proof.
         destruct (negb _); [discriminate|]. destruct (data_tile_body _ recs); discriminate.
       * specialize (Ht st t). destruct (op_read_tile_data ops st t); cbn [fst report_error]; try discriminate; congruence.
 Qed.
+
+(* ---------------------------------------------------------------- which state a request leaves *)
+
+Lemma serve_state {St : Type} (ops : server_ops St) st path :
+  snd (serve ops st path) = st \/
+  exists m i p v, path = lookup_prefix ++ m /\ mod_ver_match m = true /\ index_of 64 m = Some i /\
+                  unescape_path (firstn i m) = EOk p /\ unescape_version (skipn (S i) m) = EOk v /\
+                  snd (serve ops st path) = snd (op_lookup ops st p v).
+Proof.
+  unfold serve. destruct (has_prefix path lookup_prefix) eqn:Hp.
+  - assert (Epath : path = lookup_prefix ++ skipn (length lookup_prefix) path).
+    { clear -Hp. revert Hp. generalize lookup_prefix as q. induction path as [|c r IH]; intros [|x q] H; cbn in *;
+        try reflexivity; try discriminate.
+      apply andb_prop in H as [H1 H2]. apply Z.eqb_eq in H1. subst. f_equal. apply IH. exact H2. }
+    unfold serve_lookup. set (m := skipn (length lookup_prefix) path) in *.
+    destruct (mod_ver_match m) eqn:Em; cbn [negb]; [|left; reflexivity].
+    destruct (index_of 64 m) as [i|] eqn:Ei; [|left; reflexivity].
+    destruct (unescape_path (firstn i m)) as [p|] eqn:Eup; [|left; reflexivity].
+    destruct (unescape_version (skipn (S i) m)) as [v|] eqn:Euv; [|left; reflexivity].
+    right. exists m, i, p, v. repeat (split; [assumption|]).
+    destruct (op_lookup ops st p v) as [[id| | |] st1]; cbn [snd]; try reflexivity.
+    destruct (op_read_records ops st1 id 1) as [[|t [|t2 r]]| | |]; try reflexivity.
+    destruct (format_record id t); try reflexivity.
+    destruct (op_signed ops st1); reflexivity.
+  - left. destruct (str_eqb path latest_path).
+    + unfold serve_latest. destruct (op_signed ops st); reflexivity.
+    + destruct (has_prefix path tile_prefix_path); [|reflexivity].
+      unfold serve_tile. destruct (parse_tile_path (skipn 1 path)) as [t|e|]; try reflexivity.
+      destruct (tL t =? -1).
+      * destruct (op_read_records ops st _ _) as [recs| | |]; try reflexivity.
+        destruct (negb _); [reflexivity|]. destruct (data_tile_body _ recs); reflexivity.
+      * destruct (op_read_tile_data ops st t); reflexivity.
+Qed.
+
+(* ---------------------------------------------------------------- keys *)
+
+Lemma key_inj p p' v v' :
+  ~ In 64 p -> ~ In 64 p' -> p ++ 64 :: v = p' ++ 64 :: v' -> p = p' /\ v = v'.
+Proof.
+  revert p'. induction p as [|c p IH]; intros [|c' p'] Hp Hp' E; cbn [app] in E.
+  - injection E as ->. auto.
+  - injection E as <- _. exfalso. apply Hp'. left. reflexivity.
+  - injection E as -> _. exfalso. apply Hp. left. reflexivity.
+  - injection E as -> E. destruct (IH p') as [-> ->]; auto.
+    + intros H. apply Hp. right. exact H.
+    + intros H. apply Hp'. right. exact H.
+Qed.
+
+Lemma find_key_in k l id : find_key k l = Some id -> In (k, id) l.
+Proof.
+  induction l as [|[k' v] r IH]; cbn [find_key]; [discriminate|].
+  destruct (str_eqb_spec k k') as [->|_].
+  - intros [= ->]. left. reflexivity.
+  - intros H. right. apply IH. exact H.
+Qed.
+
+Lemma find_key_app_new k l id : find_key k l = None -> find_key k (l ++ [(k, id)]) = Some id.
+Proof.
+  induction l as [|[k' v] r IH]; cbn [find_key app].
+  - intros _. rewrite str_eqb_refl. reflexivity.
+  - destruct (str_eqb k k'); [discriminate|exact IH].
+Qed.
+
+Lemma index_of_firstn_notin c s i : index_of c s = Some i -> ~ In c (firstn i s).
+Proof.
+  revert i. induction s as [|x r IH]; intros i; cbn [index_of]; [discriminate|].
+  destruct (Z.eqb_spec x c) as [->|Hne].
+  - intros [= <-]. cbn. tauto.
+  - destruct (index_of c r) as [j|]; [|discriminate]. cbn [option_map]. intros [= <-].
+    cbn [firstn]. intros [H|H]; [congruence|]. exact (IH j eq_refl H).
+Qed.
+
+Lemma unescape_from_no_at b s r : unescape_from b s = Some r -> ~ In 64 s -> ~ In 64 r.
+Proof.
+  revert b r. induction s as [|c s IH]; intros b r; cbn [unescape_from].
+  - destruct b; [discriminate|]. intros [= <-] _ [].
+  - intros H Hs.
+    assert (Hs' : ~ In 64 s) by (intros X; apply Hs; right; exact X).
+    assert (Hc : c <> 64) by (intros X; apply Hs; left; exact X).
+    destruct (128 <=? c); [discriminate|]. destruct b.
+    + destruct ((c <? 97) || (122 <? c)) eqn:Er; [discriminate|].
+      destruct (unescape_from false s) as [t|] eqn:Et; [|discriminate]. cbn [option_map] in H.
+      injection H as <-. apply orb_false_elim in Er as [E1 E2].
+      apply Z.ltb_ge in E1. intros [X|X]; [lia|]. exact (IH _ _ Et Hs' X).
+    + destruct (c =? bang); [exact (IH _ _ H Hs')|].
+      destruct (is_upper c); [discriminate|].
+      destruct (unescape_from false s) as [t|] eqn:Et; [|discriminate]. cbn [option_map] in H.
+      injection H as <-. intros [X|X]; [congruence|]. exact (IH _ _ Et Hs' X).
+Qed.
+
+Lemma unescape_path_no_at e p : unescape_path e = EOk p -> ~ In 64 e -> ~ In 64 p.
+Proof.
+  unfold unescape_path, unescape_checked, unescape_string. destruct (unescape_from false e) as [s|] eqn:E; [|discriminate].
+  destruct (path_ok s); [|discriminate]. intros [= <-]. eapply unescape_from_no_at; eauto.
+Qed.
+
+Lemma unescape_version_v e v : unescape_version (118 :: e) = EOk v -> exists v', v = 118 :: v'.
+Proof.
+  unfold unescape_version, unescape_checked, unescape_string. cbn [unescape_from].
+  change (128 <=? 118) with false. change (118 =? bang) with false. change (is_upper 118) with false. cbv iota.
+  destruct (unescape_from false e) as [s|]; [|discriminate]. cbn [option_map].
+  destruct (elem_ok (118 :: s)); [|discriminate]. intros [= <-]. eauto.
+Qed.
+
+Lemma mod_ver_match_v m i : mod_ver_match m = true -> index_of 64 m = Some i -> exists r, skipn (S i) m = 118 :: r.
+Proof.
+  unfold mod_ver_match. intros H E. rewrite E in H. destruct (firstn i m); [discriminate|].
+  destruct (contains_byte 64 (skipn (S i) m)); [discriminate|].
+  destruct (skipn (S i) m) as [|c r]; [discriminate|].
+  destruct (Z.eqb_spec c 118) as [->|Hne]; [eauto|].
+  exfalso. clear -H Hne. destruct c as [|c|c]; try discriminate.
+  repeat (destruct c as [c|c|]; try discriminate; try congruence).
+Qed.
+
+(* ---------------------------------------------------------------- the TestServer invariant *)
+
+Section TestInv.
+Variable leaf_hash : str -> hash.
+Variable node_hash : hash -> hash -> hash.
+Variable gosum : str -> str -> gres.
+Variable sid : Type.
+Variable Sg : sid -> str -> option str.
+Variable sgn : signer sid.
+
+Notation store_of := (store_of leaf_hash node_hash).
+Notation range_hash := (range_hash leaf_hash node_hash).
+Notation test_lookup := (test_lookup leaf_hash node_hash gosum).
+Notation serve_test := (serve_test leaf_hash node_hash gosum sid Sg sgn).
+Notation test_ops := (test_ops leaf_hash node_hash gosum sid Sg sgn).
+
+(* one entry of the lookup table: the key of a module version without '@' in the path, pointing at
+   the record that gosum produced for it *)
+Definition entry_ok (recs : list str) (e : str * Z) : Prop :=
+  exists p v data, fst e = p ++ 64 :: v /\ ~ In 64 p /\ gosum p v = OOk data /\
+                   0 <= snd e /\ nth_error recs (Z.to_nat (snd e)) = Some data.
+
+Definition SInv (st : tstate) : Prop :=
+  ts_hashes st = store_of (ts_records st) /\ Forall (entry_ok (ts_records st)) (ts_lookup st).
+
+Lemma SInv_0 : SInv tstate0.
+Proof. split; [reflexivity | constructor]. Qed.
+
+Lemma entry_ok_app recs ext e : entry_ok recs e -> entry_ok (recs ++ ext) e.
+Proof.
+  intros (p & v & d & E & Hp & Hg & H0 & Hn). exists p, v, d. repeat (split; [assumption|]).
+  rewrite nth_error_app1; [exact Hn|]. apply nth_error_Some. congruence.
+Qed.
+
+(* TestServer.Lookup of a module version whose path has no '@' and whose version is not empty *)
+Lemma test_lookup_spec st p v :
+  SInv st -> zlen (ts_records st) + 1 < 2 ^ 62 -> ~ In 64 p -> v <> [] ->
+  SInv (snd (test_lookup st p v)) /\
+  ((exists id data, fst (test_lookup st p v) = OOk id /\ gosum p v = OOk data /\
+                    0 <= id /\ nth_error (ts_records (snd (test_lookup st p v))) (Z.to_nat id) = Some data /\
+                    (snd (test_lookup st p v) = st \/
+                     ts_records (snd (test_lookup st p v)) = ts_records st ++ [data])) \/
+   (snd (test_lookup st p v) = st /\ (forall id, fst (test_lookup st p v) <> OOk id) /\
+    (fst (test_lookup st p v) = OPanic -> gosum p v = OPanic))).
+Proof.
+  intros [Hh Hl] Hlen Hp Hv. unfold Server.test_lookup.
+  assert (Ek : version_string p v = p ++ 64 :: v) by (destruct v; [congruence|reflexivity]).
+  rewrite Ek. destruct (find_key (p ++ 64 :: v) (ts_lookup st)) as [id|] eqn:Ef.
+  - cbn [fst snd]. split; [split; assumption|]. left.
+    apply find_key_in in Ef. rewrite Forall_forall in Hl. destruct (Hl _ Ef) as (p' & v' & d & E & Hp' & Hg & H0 & Hn).
+    cbn [fst snd] in *. destruct (key_inj _ _ _ _ Hp Hp' E) as [<- <-].
+    exists id, d. split; [reflexivity|]. split; [exact Hg|]. split; [exact H0|]. split; [exact Hn|]. left. reflexivity.
+  - destruct (gosum p v) as [data| | |] eqn:Eg; cbn [fst snd];
+      try (split; [split; assumption|]; right; split; [reflexivity|]; split; [discriminate|]; intros; congruence).
+    rewrite (stored_hashes_for_record_hash_ext node_hash _ _ _ (reader_of (ts_hashes st)) (safe_reader_eq _)).
+    rewrite Hh.
+    assert (Hlen' : zlen (ts_records st ++ [data]) < 2 ^ 62) by (rewrite zlen_app; change (zlen [data]) with 1; lia).
+    destruct (stored_hashes_ok leaf_hash node_hash (ts_records st) data Hlen') as (hs & E & Est & _).
+    unfold stored_hashes in E. rewrite E. cbn [fst snd ts_records ts_hashes ts_lookup].
+    assert (Hnth : nth_error (ts_records st ++ [data]) (Z.to_nat (zlen (ts_records st))) = Some data).
+    { unfold zlen. rewrite Nat2Z.id, nth_error_app2, Nat.sub_diag by lia. reflexivity. }
+    split.
+    + split; [cbn; symmetry; exact Est|]. cbn. apply Forall_app. split.
+      * revert Hl. apply Forall_impl. intros e. apply entry_ok_app.
+      * constructor; [|constructor]. exists p, v, data. cbn [fst snd].
+        repeat (split; [first [reflexivity | assumption | apply zlen_nonneg]|]). exact Hnth.
+    + left. exists (zlen (ts_records st)), data. split; [reflexivity|]. split; [reflexivity|].
+      split; [apply zlen_nonneg|]. split; [exact Hnth|]. right. reflexivity.
+Qed.
+
+(* every request keeps the invariant; the log only grows, by at most one record *)
+Theorem serve_test_inv st path :
+  SInv st -> zlen (ts_records st) + 1 < 2 ^ 62 ->
+  SInv (snd (serve_test st path)) /\
+  (snd (serve_test st path) = st \/
+   exists data, ts_records (snd (serve_test st path)) = ts_records st ++ [data]).
+Proof.
+  intros HI Hlen. unfold Server.serve_test.
+  destruct (serve_state test_ops st path) as [E|(m & i & p & v & _ & Em & Ei & Ep & Ev & E)]; rewrite E.
+  - split; [exact HI|]. left. reflexivity.
+  - cbn [op_lookup Server.test_ops].
+    destruct (mod_ver_match_v m i Em Ei) as [r Er]. rewrite Er in Ev.
+    destruct (unescape_version_v r v Ev) as [v' ->].
+    assert (Hp : ~ In 64 p) by (eapply unescape_path_no_at; [exact Ep | apply index_of_firstn_notin; exact Ei]).
+    destruct (test_lookup_spec st p (118 :: v') HI Hlen Hp ltac:(discriminate)) as [HI' Hc].
+    split; [exact HI'|].
+    destruct Hc as [(id & d & _ & _ & _ & _ & [Es|Es])|[Es _]]; [left; exact Es | right; eauto | left; exact Es].
+Qed.
+
+(* ---------------------------------------------------------------- tiles *)
+
+(* a tile all of whose hashes exist in a tree of size N (any width up to what is there) *)
+Definition servable (h N : Z) (t : tile) : Prop :=
+  tH t = h /\ 0 <= tL t /\ 0 <= tN t /\ 1 <= tW t <= 2 ^ h /\
+  tN t * 2 ^ h + tW t <= N / 2 ^ (h * tL t).
+
+Lemma tree_tile_servable h N t : tree_tile h N t -> servable h N t.
+Proof. intros (A & B & C & D & E & _). repeat split; assumption || apply D. Qed.
+
+Lemma servable_mono h N N' t : 1 <= h -> N <= N' -> servable h N t -> servable h N' t.
+Proof.
+  intros Hh Hle (A & B & C & D & E). repeat split; try assumption; try apply D.
+  assert (0 < 2 ^ (h * tL t)) by (apply pow2_pos; nia).
+  pose proof (Z.div_le_mono N N' (2 ^ (h * tL t)) ltac:(lia) Hle). lia.
+Qed.
+
+Lemma servable_valid h N t : 1 <= h <= 30 -> N < 2 ^ 62 -> servable h N t -> valid_tile t.
+Proof.
+  intros Hh HN (A & B & C & D & E).
+  assert (Hk : 0 <= h * tL t) by nia.
+  pose proof (pow2_pos (h * tL t) Hk) as Hp. pose proof (pow2_pos h ltac:(lia)) as Hph.
+  assert (Hq : 1 <= N / 2 ^ (h * tL t)) by nia.
+  assert (HN1 : 2 ^ (h * tL t) <= N).
+  { pose proof (Z.mul_div_le N (2 ^ (h * tL t)) Hp). nia. }
+  assert (Hk62 : h * tL t < 62).
+  { destruct (Z_lt_le_dec (h * tL t) 62); [assumption|].
+    pose proof (pow2_le 62 (h * tL t) ltac:(lia)). lia. }
+  assert (HN2 : N / 2 ^ (h * tL t) <= N).
+  { apply Z.div_le_upper_bound; [lia|]. nia. }
+  assert (H63 : 2 ^ 62 < 2 ^ 63) by (apply pow2_lt; lia).
+  unfold valid_tile. rewrite A. repeat split; try lia; try apply D; nia.
+Qed.
+
+Lemma store_holds_le T N N' st : N' <= N -> store_holds T N st -> store_holds T N' st.
+Proof. intros Hle H l o Hl Ho Hlo. apply H; lia. Qed.
+
+Lemma read_tile_data_servable T N st h t :
+  1 <= h -> 0 <= N -> store_holds T N st -> servable h N t ->
+  read_tile_data t (reader_of st) = TOk (honest_tile T t).
+Proof.
+  intros Hh HN Hst (A & B & C & D & E).
+  assert (Hk : 0 <= h * tL t) by nia.
+  pose proof (pow2_pos (h * tL t) Hk) as Hp.
+  set (N' := (tN t * 2 ^ h + tW t) * 2 ^ (h * tL t)).
+  assert (HN' : N' <= N).
+  { unfold N'. pose proof (Z.mul_div_le N (2 ^ (h * tL t)) Hp). nia. }
+  pose proof (pow2_pos h ltac:(lia)) as Hph.
+  apply (read_tile_data_honest T N' st h t Hh).
+  - unfold N'. nia.
+  - eapply store_holds_le; eauto.
+  - assert (Ediv : N' / 2 ^ (h * tL t) = tN t * 2 ^ h + tW t) by (unfold N'; apply Z.div_mul; lia).
+    unfold tree_tile. rewrite Ediv. repeat split; try assumption; try apply D; lia.
+Qed.
+
+Lemma tile_path_head t : exists r, tile_path t = 116 :: 105 :: 108 :: 101 :: 47 :: r.
+Proof. unfold tile_path. eexists. reflexivity. Qed.
+
+(* the request "/" ++ Tile.Path() reaches the tile branch with the tile parsed back *)
+Lemma serve_tile_path {St : Type} (ops : server_ops St) st t :
+  valid_tile t -> serve ops st (47 :: tile_path t) = serve_tile ops st (47 :: tile_path t) /\
+                  parse_tile_path (skipn 1 (47 :: tile_path t)) = TOk t.
+Proof.
+  intros Hv. split; [|cbn [skipn]; apply parse_tile_path_of_path; exact Hv].
+  destruct (tile_path_head t) as [r ->]. reflexivity.
+Qed.
+
+Theorem serve_tile_servable st h t :
+  SInv st -> zlen (ts_records st) < 2 ^ 62 -> 1 <= h <= 30 -> servable h (zlen (ts_records st)) t ->
+  serve_test st (47 :: tile_path t) = (HOk COctet (honest_tile (range_hash (ts_records st)) t), st) /\
+  read_tile_data t (reader_of (store_of (ts_records st))) = TOk (honest_tile (range_hash (ts_records st)) t).
+Proof.
+  intros [Hh _] Hlen Hhr Hs.
+  assert (Hv : valid_tile t) by (eapply servable_valid; eauto).
+  destruct (store_of_inv leaf_hash node_hash (ts_records st) Hlen) as [Hst _].
+  assert (Hrd : read_tile_data t (reader_of (store_of (ts_records st))) = TOk (honest_tile (range_hash (ts_records st)) t)).
+  { apply (read_tile_data_servable _ (zlen (ts_records st)) _ h); try assumption; try lia. apply zlen_nonneg. }
+  split; [|exact Hrd].
+  unfold Server.serve_test. destruct (serve_tile_path test_ops st t Hv) as [-> Hp].
+  unfold serve_tile. rewrite Hp.
+  destruct Hs as (_ & HL & _). destruct (Z.eqb_spec (tL t) (-1)); [lia|].
+  cbn [op_read_tile_data Server.test_ops]. unfold test_read_tile_data.
+  rewrite (read_tile_data_ext t _ (reader_of (ts_hashes st)) (safe_reader_eq _)), Hh, Hrd. reflexivity.
+Qed.
+
+(* the tiles a tile hash reader of the current tree asks for (NewTilesProofs.tree_tile): the server is
+   the honest tile reader of TileProofsHonest / the publisher content of NewTilesProofsData *)
+Theorem serve_tile_honest st h t :
+  SInv st -> zlen (ts_records st) < 2 ^ 62 -> 1 <= h <= 30 -> tree_tile h (zlen (ts_records st)) t ->
+  serve_test st (47 :: tile_path t) = (HOk COctet (honest_tile (range_hash (ts_records st)) t), st) /\
+  read_tile_data t (reader_of (store_of (ts_records st))) = TOk (honest_tile (range_hash (ts_records st)) t).
+Proof. intros HI Hlen Hh Ht. apply serve_tile_servable; auto. apply tree_tile_servable. exact Ht. Qed.
+
+(* data tiles *)
+Theorem serve_data_tile_honest st h n w :
+  1 <= h <= 30 -> 0 <= n -> 1 <= w <= 2 ^ h -> n * 2 ^ h + w <= zlen (ts_records st) -> zlen (ts_records st) < 2 ^ 62 ->
+  Forall (fun t => is_valid_record_text t = true) (slice (ts_records st) (n * 2 ^ h) w) ->
+  serve_test st (47 :: tile_path (mkTile h (-1) n w))
+  = (HOk CText (concat (map (fun t => t ++ [10]) (slice (ts_records st) (n * 2 ^ h) w))), st).
+Proof.
+  intros Hh Hn Hw Hle Hlen Hvalid.
+  pose proof (pow2_pos h ltac:(lia)) as Hph.
+  assert (H63 : 2 ^ 62 < 2 ^ 63) by (apply pow2_lt; lia).
+  assert (Hv : valid_tile (mkTile h (-1) n w)).
+  { unfold valid_tile. cbn [tH tL tN tW]. repeat split; try lia. nia. }
+  unfold Server.serve_test. destruct (serve_tile_path test_ops st _ Hv) as [-> Hp].
+  unfold serve_tile. rewrite Hp. cbn [tL tH tN tW]. change (-1 =? -1) with true. cbv iota.
+  rewrite Z.shiftl_mul_pow2 by lia.
+  cbn [op_read_records Server.test_ops]. unfold test_read_records.
+  destruct (Z.leb_spec w 0); [lia|]. destruct (Z.ltb_spec (n * 2 ^ h) 0); [nia|].
+  destruct (Z.ltb_spec (zlen (ts_records st)) (n * 2 ^ h + w)); [lia|].
+  fold (slice (ts_records st) (n * 2 ^ h) w).
+  assert (El : zlen (slice (ts_records st) (n * 2 ^ h) w) = w).
+  { unfold slice, zlen in *. rewrite firstn_length, skipn_length. lia. }
+  rewrite El, Z.eqb_refl. cbn [negb]. rewrite (data_tile_body_some _ _ Hvalid). reflexivity.
+Qed.
+
+(* a well-formed hash tile that reaches outside the stored hashes: TestServer panics *)
+Theorem serve_tile_out_of_range_panics st t :
+  valid_tile t -> 0 <= tL t ->
+  read_tile_data t (reader_of (ts_hashes st)) = TErr TEReader ->
+  serve_test st (47 :: tile_path t) = (HPanic, st).
+Proof.
+  intros Hv HL Hrd. unfold Server.serve_test. destruct (serve_tile_path test_ops st t Hv) as [-> Hp].
+  unfold serve_tile. rewrite Hp. destruct (Z.eqb_spec (tL t) (-1)); [lia|].
+  cbn [op_read_tile_data Server.test_ops]. unfold test_read_tile_data.
+  rewrite (read_tile_data_ext t _ (reader_of (ts_hashes st)) (safe_reader_eq _)), Hrd. reflexivity.
+Qed.
+
+End TestInv.
